@@ -42,3 +42,15 @@ From JT Require Import gen.Brackets.
 Theorem C19_disabled_returns_before_anything_else : disabled_returns_before_push = true.
 Proof. reflexivity. Qed.
 Print Assumptions C19_disabled_returns_before_anything_else.
+
+(* the wrapper with the position of the switch test as a parameter (model/SourceShape.v) *)
+From JT Require Import model.SourceShape proofs.SourceShapeFacts.
+Theorem C19_wrapper_as_in_source_is_transparent_when_disabled : forall d n1 n2 c,
+  d || n1 || n2 = true -> wrapper_trace_src disabled_returns_before_push d n1 n2 c = [EBody].
+Proof. exact (fun d n1 n2 c => wrapper_trace_src_transparent disabled_returns_before_push d n1 n2 c eq_refl). Qed.
+Print Assumptions C19_wrapper_as_in_source_is_transparent_when_disabled.
+
+Theorem C19_late_disable_test_refuted : exists d n1 n2 c,
+  d || n1 || n2 = true /\ wrapper_trace_src false d n1 n2 c <> [EBody].
+Proof. exact late_disable_test_refuted. Qed.
+Print Assumptions C19_late_disable_test_refuted.
